@@ -139,8 +139,8 @@ theorem rep_return {G : GCtx} (ok : G.OK) {pi : PInfo} (hpi : pi ∈ G.procs) (s
           cases b with
           | var o => cases o <;> exact hr
           | _ => exact hr
-        obtain ⟨id, a, hid, ha, hlt, hv⟩ := rep.aptr n r hr0
-        refine ⟨id, a, hid, ha, hlt, ?_⟩
+        obtain ⟨a, ha, hlt, hv⟩ := rep.aptr n r hr0
+        refine ⟨a, ha, hlt, ?_⟩
         have hge : sp + q ≤ a := by
           rcases wf.loc_sep n a ha with hlow | hhigh
           · have hng := ok.low_global pi hpi sp n a hlo ha hlow
@@ -174,10 +174,12 @@ theorem rep_return {G : GCtx} (ok : G.OK) {pi : PInfo} (hpi : pi ∈ G.procs) (s
             obtain ⟨a, ha, hm⟩ := hg.aptr n id hgv
             have hlt := ok.gloc_lo n hn a ha
             have htop := ok.top
-            refine ⟨id, a, hr.symm, ?_, by unfold memWords at *; omega, hm⟩
+            subst hr
+            refine ⟨a, ?_, by unfold memWords at *; omega, hm⟩
             show G.locOf pi sp n = _
             rw [ok.gloc_ok pi hpi _ n hn]; exact ha
-    acells := hg.acells }
+    acells := hg.acells
+    strs := hg.strs }
 
 def PInfo.callKind (pj : PInfo) : CallKind := if pj.p.isFunc then .func pj.p.name else .proc pj.p.name
 
@@ -191,11 +193,11 @@ theorem toNat_ofNat_lt (n : Nat) (h : n < 2 ^ 32) : (BitVec.ofNat 32 n).toNat = 
 /-- **The branch and link of a user call**, with the actuals already in the outgoing area. -/
 theorem exec_calltail {G : GCtx} (ok : G.OK) (fuel : Nat) (hcs : CallSpec G fuel) {pi : PInfo} (hpi : pi ∈ G.procs)
     {pj : PInfo} (hpj : pj ∈ G.procs) (sp dep : Nat) (hi : Nat → Word) (hlo : G.lo ≤ sp) (hspv : sp + G.S pi + pi.po + pi.p.formals.length ≤ G.spv + 1)
-    (hstack : G.spv ≤ sp + dep * G.smax) (s : X.St) (ws : List Val) (hokv : ∀ v ∈ ws, okV v = true)
+    (hstack : G.spv ≤ sp + dep * G.smax) (s : X.St) (ws : List Val)
     (lc off j : Nat) (a1 b1 : Word) (mem1 : Mem)
     (hat2 : At G.env.ds j (lowerCode G.cg (callTail pj.callKind lc)))
     (rep1s : Rep (KOf G pi sp dep hi) s mem1)
-    (hvals : ∀ k (hk : k < ws.length), mem1.read (sp + pj.po + k) = wordOf G.abase ws[k])
+    (hvals : ∀ k (hk : k < ws.length), G.VRep ws[k] (mem1.read (sp + pj.po + k)))
     (hroom : pj.po + ws.length ≤ G.S pi) (hq : pi.p.locals.length + pj.po ≤ G.S pi) (hoff : pj.po + off ≤ G.S pi) :
     match X.callUser fuel G.xc pj.p ws s with
     | .ok res s' => ∃ a' b' mem', Steps G.env (cfg j a1 b1 mem1) s.io
@@ -243,8 +245,8 @@ theorem exec_calltail {G : GCtx} (ok : G.OK) (fuel : Nat) (hcs : CallSpec G fuel
       (cfg (j + 1) (BitVec.ofNat 32 (G.env.addr (j + 2))) b1 mem1)
       s.io _ _ t1 lPro
     have hspec := hcs pj hpj ws s (BitVec.ofNat 32 (G.env.addr (j + 2))) b1 mem1 sp
-      (j + 2) .plain _ grep rep1s.sp hokv
-      (fun j hj => by have := hvals j hj; rw [Nat.add_assoc] at this ⊢; exact this)
+      (j + 2) .plain _ grep rep1s.sp
+      (fun j hj => hvals j hj)
       (by rw [hdep]; exact hstack) (by omega) hlo t2 (toNat_ofNat_lt _ haddr).symm
     cases hx : X.callUser fuel G.xc pj.p ws s with
     | undef w => trivial
@@ -293,8 +295,8 @@ theorem exec_calltail {G : GCtx} (ok : G.OK) (fuel : Nat) (hcs : CallSpec G fuel
       (cfg (j + 1) (BitVec.ofNat 32 (G.env.addr (j + 2))) b1 mem1)
       s.io _ _ t1 lPro
     have hspec := hcs pj hpj ws s (BitVec.ofNat 32 (G.env.addr (j + 2))) b1 mem1 sp
-      (j + 2) .plain _ grep rep1s.sp hokv
-      (fun j hj => by have := hvals j hj; rw [Nat.add_assoc] at this ⊢; exact this)
+      (j + 2) .plain _ grep rep1s.sp
+      (fun j hj => hvals j hj)
       (by rw [hdep]; exact hstack) (by omega) hlo t2 (toNat_ofNat_lt _ haddr).symm
     cases hx : X.callUser fuel G.xc pj.p ws s with
     | undef w => trivial
@@ -376,7 +378,7 @@ theorem exec_usercall {G : GCtx} (ok : G.OK) (fuel : Nat) (hcs : CallSpec G fuel
     simpa using this
   have hs2 := evalArgs_pure G.xc es fuel' st s _ hp hev
   have hpo := po_pos pj
-  obtain ⟨a1, b1, mem1, st1, rep1, hvals, hokv, _, frm1⟩ := exec_loadActualsV (KOf G pi sp dep hi) wf.toWF es fuel' st s ws hp hev
+  obtain ⟨a1, b1, mem1, st1, rep1, hvals, _, frm1⟩ := exec_loadActualsV (KOf G pi sp dep hi) wf.toWF es fuel' st s ws hp hev
     pj.po gs.offset _ c2 gs2 i a b mem st.io rfl h2 hat.left hr (by show gs2.size + (pj.po + es.length) ≤ G.S pi; omega) hnl
     (Nat.le_refl _) (fun x hx => hci x hx)
   have rep1s : Rep (KOf G pi sp dep hi) s mem1 := rep1.same hs2
@@ -385,7 +387,7 @@ theorem exec_usercall {G : GCtx} (ok : G.OK) (fuel : Nat) (hcs : CallSpec G fuel
   -- the branch and link
   have hat2 : At G.env.ds (i + (lowerCode G.cg c2).length) (lowerCode G.cg (callTail pj.callKind gs2.labelCount)) := hat.right
   have hio : s.io = st.io := hs2.2.2.2.1
-  have hct := exec_calltail ok fuel hcs hpi hpj sp dep hi hlo hspv hstack s ws hokv gs2.labelCount gs.offset
+  have hct := exec_calltail ok fuel hcs hpi hpj sp dep hi hlo hspv hstack s ws gs2.labelCount gs.offset
     (i + (lowerCode G.cg c2).length) a1 b1 mem1 hat2 rep1s (fun k hk => hvals k hk) (by omega) (by omega) (by omega)
   cases hx : X.callUser fuel G.xc pj.p ws s with
   | undef w => trivial
@@ -406,10 +408,6 @@ theorem noLoc_of_rep {G : GCtx} {pi : PInfo} {sp dep : Nat} {hi : Nat → Word} 
     (rep : Rep (KOf G pi sp dep hi) σ mem) : NoLoc G.pnames σ := by
   intro g hg
   exact rep.gvis g (List.mem_append_right _ (by simpa using hg))
-
-theorem getElem_map_wordOf (abase : Nat → Nat) (vs : List Val) (k : Nat) (hk : k < (vs.map (wordOf abase)).length) :
-    (vs.map (wordOf abase))[k] = wordOf abase (vs[k]'(by simpa using hk)) := by
-  simp
 
 /-- **A user call whose actuals may contain calls of pure functions.** -/
 theorem exec_usercallP {G : GCtx} (ok : G.OK) (pk : PureOk G.xc) (fuel : Nat) (hcs : CallSpec G fuel) {pi : PInfo} (hpi : pi ∈ G.procs)
@@ -433,11 +431,11 @@ theorem exec_usercallP {G : GCtx} (ok : G.OK) (pk : PureOk G.xc) (fuel : Nat) (h
   have wf := ok.wfs pi hpi sp dep hi hlo hspv
   have hps : ∀ g, G.pnames.contains g = true → ∃ p, G.xc.genv.lookup g = some (.proc p) :=
     fun g hg => ok.pnames_mem g (by simpa using hg)
-  obtain ⟨hsim, hlenv, hokv, hsave, hload⟩ := ppArgs_specs (KOf G pi sp dep hi) wf.toWF G.pnames pk hps es fuel' hleaf st st s ws mem
-    hp (Sim.refl _) (noLoc_of_rep hr) hr hev
+  obtain ⟨hsim, hlenv, hsave, hload⟩ := ppArgs_specs (KOf G pi sp dep hi) wf.toWF G.pnames pk hps es fuel' hleaf st st s ws
+    hp (Sim.refl _) (noLoc_of_rep hr) hev
   obtain ⟨c1, gs1, c2, gs2, h1, h2, hcode, hgs'⟩ := callSeq_inv _ _ _ _ _ _ _ _ hg
   have hlen : (optArgsOf G.rho es).length = es.length := by simp [optArgsOf]
-  have hlenW : (optArgsOf G.rho es).length = (ws.map (wordOf G.abase)).length := by simp [optArgsOf, hlenv]
+  have hlenW : (optArgsOf G.rho es).length = (ws.map (KOf G pi sp dep hi).VRep).length := by simp [optArgsOf, hlenv]
   obtain ⟨f1o, f1s, f1c, f1os⟩ := genCallActuals_facts _ _ _ _ _ h1
   simp only at f1o f1s f1c f1os
   obtain ⟨b1o, b1s, _, b1p, b1c⟩ := bumpN_facts (countCalls (optArgsOf G.rho es)) { gs1 with offset := gs.offset }
@@ -474,12 +472,12 @@ theorem exec_usercallP {G : GCtx} (ok : G.OK) (pk : PureOk G.xc) (fuel : Nat) (h
   have rep2s : Rep (KOf G pi sp dep hi) s mem2 := rep2.sim hsim
   have hio : s.io = st.io := hsim.2.2.2.1.symm
   have hwl : ws.length = es.length := hlenv.symm
-  have hct := exec_calltail ok fuel hcs hpi hpj sp dep hi hlo hspv hstack s ws hokv gs2.labelCount gs.offset
+  have hct := exec_calltail ok fuel hcs hpi hpj sp dep hi hlo hspv hstack s ws gs2.labelCount gs.offset
     (i + (lowerCode G.cg c1).length + (lowerCode G.cg c2).length) a2 b2 mem2
     (by have := hat.right.right; simpa [Nat.add_assoc] using this) rep2s
     (fun k hk => by
       have := hvals k (by simpa using hk)
-      rw [getElem_map_wordOf] at this
+      simp only [List.getElem_map] at this
       exact this)
     (by omega) (by omega) (by omega)
   have frm12 : FrmC (KOf G pi sp dep hi) gs.offset (G.S pi) mem mem2 :=
@@ -513,7 +511,8 @@ structure ArgsOK (G : GCtx) (pi : PInfo) (sp dep : Nat) (hi : Nat → Word) (f :
     | .ok vs s =>
       (match X.callUser f G.xc pj.p vs s with
        | .ok res s' => ∃ a' b' mem', Steps G.env (cfg i a b mem) st.io (cfg (i + (lowerCode G.cg code).length) a' b' mem') s'.io ∧
-           Rep (KOf G pi sp dep hi) s' mem' ∧ (pj.p.isFunc = true → ∀ w, res = some w → a' = w)
+           Rep (KOf G pi sp dep hi) s' mem' ∧ (pj.p.isFunc = true → ∀ w, res = some w → a' = w) ∧
+           FrmC (KOf G pi sp dep hi) gs.offset (G.S pi) mem mem'
        | .exit cd s' => ∃ c, Steps G.env (cfg i a b mem) st.io c s'.io ∧ Exit G.env c s'.io cd
        | .undef _ => True)
     | .exit cd s => ∃ c, Steps G.env (cfg i a b mem) st.io c s.io ∧ Exit G.env c s.io cd
@@ -536,7 +535,7 @@ theorem argsOK_pure (f : Nat) (args : List X.Expr) (hp : ∀ e ∈ args, pureE e
     cases hx : X.callUser f G.xc pj.p vs s with
     | undef w => trivial
     | exit cd s' => rw [hx] at h; exact h
-    | ok res s' => rw [hx] at h; obtain ⟨a', b', mem', h1, h2, h3, _⟩ := h; exact ⟨a', b', mem', h1, h2, h3⟩
+    | ok res s' => rw [hx] at h; exact h
 
 theorem argsOK_pp (pk : PureOk G.xc) (f : Nat) (hleaf : ∀ k, k ≤ f → CallLeaf (KOf G pi sp dep hi) G.pnames k)
     (args : List X.Expr) (hp : ∀ e ∈ args, ppE G.pnames G.xc.impure e = true) : ArgsOK G pi sp dep hi f args := by
@@ -553,7 +552,7 @@ theorem argsOK_pp (pk : PureOk G.xc) (f : Nat) (hleaf : ∀ k, k ≤ f → CallL
     cases hx : X.callUser f G.xc pj.p vs s with
     | undef w => trivial
     | exit cd s' => rw [hx] at h; exact h
-    | ok res s' => rw [hx] at h; obtain ⟨a', b', mem', h1, h2, h3, _⟩ := h; exact ⟨a', b', mem', h1, h2, h3⟩
+    | ok res s' => rw [hx] at h; exact h
 
 end
 
